@@ -47,7 +47,7 @@ Proof.
   destruct (axis_facts x nx xq Law Ax Hnx) as (Dx & Sx & Rx & Px).
   destruct (axis_facts y ny yq Law Ay Hny) as (Dy & Sy & Ry & Py).
   pose proof (dim_0 _ _ _ Sv) as Dv0. pose proof (dim_1 _ _ _ _ Sv) as Dv1.
-  unfold u_interp2d_v_ok. rewrite Dx, Dy, Dv0, Dv1. cbn [fst snd].
+  cbv beta delta [u_interp2d_v_ok]. rewrite Dx, Dy, Dv0, Dv1. cbn [fst snd].
   abstract_ssr x xq. abstract_ssr y yq.
   ok_walk interp_leaf.
 Qed.
@@ -60,7 +60,7 @@ Proof.
   destruct (axis_facts x nx xq Law Ax Hnx) as (Dx & Sx & Rx & Px).
   destruct (axis_facts y ny yq Law Ay Hny) as (Dy & Sy & Ry & Py).
   pose proof (dim_0 _ _ _ Sv) as Dv0. pose proof (dim_1 _ _ _ _ Sv) as Dv1.
-  unfold u_vinterp2d_v_ok. rewrite Dx, Dy, Dv0, Dv1. cbn [fst snd].
+  cbv beta delta [u_vinterp2d_v_ok]. rewrite Dx, Dy, Dv0, Dv1. cbn [fst snd].
   abstract_ssr x xq. abstract_ssr y yq.
   ok_walk interp_leaf.
 Qed.
@@ -74,7 +74,7 @@ Proof.
   destruct (axis_facts y ny yq Law Ay Hny) as (Dy & Sy & Ry & Py).
   destruct (axis_facts z nz zq Law Az Hnz) as (Dz & Sz & Rz & Pz).
   pose proof (dim_0 _ _ _ Sv) as Dv0. pose proof (dim_1 _ _ _ _ Sv) as Dv1. pose proof (dim_2 _ _ _ _ _ Sv) as Dv2.
-  unfold u_interp3d_v_ok. rewrite Dx, Dy, Dz, Dv0, Dv1, Dv2. cbn [fst snd].
+  cbv beta delta [u_interp3d_v_ok]. rewrite Dx, Dy, Dz, Dv0, Dv1, Dv2. cbn [fst snd].
   abstract_ssr x xq. abstract_ssr y yq. abstract_ssr z zq.
   ok_walk interp_leaf.
 Qed.
@@ -88,7 +88,7 @@ Proof.
   destruct (axis_facts y ny yq Law Ay Hny) as (Dy & Sy & Ry & Py).
   destruct (axis_facts z nz zq Law Az Hnz) as (Dz & Sz & Rz & Pz).
   pose proof (dim_0 _ _ _ Sv) as Dv0. pose proof (dim_1 _ _ _ _ Sv) as Dv1. pose proof (dim_2 _ _ _ _ _ Sv) as Dv2.
-  unfold u_vinterp3d_v_ok. rewrite Dx, Dy, Dz, Dv0, Dv1, Dv2. cbn [fst snd].
+  cbv beta delta [u_vinterp3d_v_ok]. rewrite Dx, Dy, Dz, Dv0, Dv1, Dv2. cbn [fst snd].
   abstract_ssr x xq. abstract_ssr y yq. abstract_ssr z zq.
   ok_walk interp_leaf.
 Qed.
